@@ -58,7 +58,8 @@ def TablesOk (env : Env) (E : EnumInfo) : Bool :=
     | some tbl => (List.range (2 ^ w)).all fun raw =>
         match tbl.lookup (raw : Int) with
         | some (.enum c m) => c == cls && (E.membersOf cls).contains m &&
-            (!(E.membersOf cls).contains (raw : Int) || m == (raw : Int))
+            (!(E.membersOf cls).contains (raw : Int) || m == (raw : Int)) &&
+            blockOK E.membersOf cls (raw : Int) m
         | _ => false
     | none => false) &&
   (E.rotTables.all fun n =>
@@ -180,7 +181,8 @@ theorem tablesOk_enum (env : Env) (E : EnumInfo) (htab : TablesOk env E = true)
     (raw : Nat) (hraw : raw < 2 ^ w) :
     ∃ tbl c m, env.convTables.lookup n = some tbl ∧ tbl.lookup (raw : Int) = some (.enum c m) ∧
       (c == cls && (E.membersOf cls).contains m &&
-        (!(E.membersOf cls).contains (raw : Int) || m == (raw : Int))) = true := by
+        (!(E.membersOf cls).contains (raw : Int) || m == (raw : Int)) &&
+        blockOK E.membersOf cls (raw : Int) m) = true := by
   unfold TablesOk at htab
   rw [Bool.and_eq_true] at htab
   have h1 := List.all_eq_true.mp htab.1 _ (lookup_mem _ _ _ hl)
